@@ -17,7 +17,8 @@ package main
 //       Result: reject (Encode refuses the key) | undecodable (a scalar >= N is refused on the way back) |
 //       ok:<type of the decoded key>:topem=<ok|err>.
 //       Lean: Model.PKCS8 (marshal / parse / toPEM).
-//       (Before the repair ParsePKCS8PrivateKey did not know the RSA OID: every RSA bundle was refused.)
+//       (Before the repair ParsePKCS8PrivateKey did not know the RSA OID: every RSA bundle was refused.
+//       Before the repair of convertBag ToPEM answered "x509: unknown elliptic curve" for every SM2 key: topem=err.)
 
 import (
 	"bytes"
@@ -264,7 +265,7 @@ func c17EvalP12Key(args []string) string {
 				if wantRSA != nil {
 					k, err = stdx509.ParsePKCS1PrivateKey(b.Bytes)
 				} else {
-					k, err = stdx509.ParseECPrivateKey(b.Bytes)
+					k, err = c17ParseSEC1(b.Bytes) // (the standard library's parser does not know the SM2 curve)
 				}
 				if err != nil {
 					return "ORACLE-FAIL:ToPEM-key-block-unreadable"
